@@ -198,8 +198,20 @@ func buildFieldsInfo(tp reflect.Type, fullName string) (*fieldInfo, error) {
 	switch tp.Kind() {
 	case reflect.Struct:
 		return buildStructFieldsInfo(tp, fullName)
-	case reflect.Array, reflect.Slice, reflect.Map:
+	case reflect.Array, reflect.Slice:
 		return buildFieldsInfo(mapping.Deref(tp.Elem()), fullName)
+	case reflect.Map:
+		// keep the map layer, so that the keys of a nested map are left alone and
+		// the keys below it are still lower-cased
+		elemInfo, err := buildFieldsInfo(mapping.Deref(tp.Elem()), fullName)
+		if err != nil {
+			return nil, err
+		}
+
+		return &fieldInfo{
+			children: make(map[string]*fieldInfo),
+			mapField: elemInfo,
+		}, nil
 	case reflect.Chan, reflect.Func:
 		return nil, fmt.Errorf("unsupported type: %s, fullName: %s", tp.Kind(), fullName)
 	default:
